@@ -109,40 +109,6 @@ proof! {
 
 // ---- C01.b -----------------------------------------------------------------------------------------
 
-/// Kings plus a fixed list of men (colour, kind); squares, castling rights and ep target symbolic.
-pub fn family(wtm: bool, men: &[(usize, u8)], with_rights: bool, with_ep: bool, tag: &str) -> Pos {
-    let mut bb = [[0u64; 6]; 2];
-    let wk: u8 = kani::any();
-    let bk: u8 = kani::any();
-    kani::assume(wk < 64 && bk < 64 && wk != bk);
-    bb[0][K] = bit(wk);
-    bb[1][K] = bit(bk);
-    let mut occ = bit(wk) | bit(bk);
-    let mut i = 0;
-    while i < men.len() {
-        let s: u8 = kani::any();
-        kani::assume(s < 64 && occ & bit(s) == 0);
-        occ |= bit(s);
-        let (c, k) = men[i];
-        if k == 1 {
-            kani::assume(s >= 8 && s < 56);
-        }
-        bb[c][(k - 1) as usize] |= bit(s);
-        i += 1;
-    }
-    let mut p = Pos { bb, wtm, rights: [false; 4], ep: NO_SQ, half: 0, full: 1 };
-    if with_rights {
-        p.rights = [kani::any(), kani::any(), kani::any(), kani::any()];
-    }
-    if with_ep {
-        p.ep = kani::any();
-        kani::assume(p.ep <= 64);
-    }
-    kani::assume(legal_position(&p));
-    print_pos(tag, &p);
-    p
-}
-
 fn find_in_list<const MAX: usize>(list: &Vec<PseudoLegalMove>, target: Move) -> bool {
     let mut found = false;
     let mut i = 0;
